@@ -63,6 +63,11 @@ CHECKS.update({
          'Generated histories against a reference chain evaluator; hundreds (quick) to ~10^4 (thorough) histories of 1..6 validations.',
          'Trusts pbt/refs/lvs_ref.py, the strict Data reader and pycryptodome; an exception out of the validator counts as not accepted; HMAC/Ed25519 links soundness only.', '6/C14'),
 })
+CHECKS.update({
+ 'C16': ('Hypothesis @given issuing parameters (key names, issuer ids, subject/issuer key types, pinned-nonce ECDSA and synthetic signers, start times/durations at calendar edges, patched clock) + exhaustive (R,r) x size-around-253 grid; oracle: strict certificate reader, independent instant rendering, pycryptodome verification over the strict signed portion, parser agreement',
+         'Generated-input exploration against independent decoding/verification; thousands (quick) to ~10^5 (thorough) certificates plus the complete shrink/boundary grid.',
+         'Trusts pbt/pkt.py strict_cert, pycryptodome and stdlib datetime arithmetic.', '6/C16'),
+})
 NOT_YET = {}
 def main():
     props = [json.loads(l) for l in open(os.path.join(ROOT, 'properties.jsonl'))]
